@@ -23,6 +23,24 @@ def run_lints(src, reg):
                             if not ok:
                                 problems.append({"rule": "rep-container-reassigned",
                                                  "detail": "%s.%s assigns %s outside the owner's __init__" % (cls.name, fn.name, t.attr)})
+    # class invariants are assumed by clients outside the class (visible-state semantics): they may speak only about
+    # name-mangled private attributes of the class, and nothing outside the class may assign those
+    import re
+    for cname, invs in reg.class_invs.items():
+        private = set()
+        for text in invs.values():
+            for a in re.findall(r"self\.(\w+)", text):
+                if not a.startswith("__"):
+                    problems.append({"rule": "class-invariant-attributes-are-private", "detail": "%s invariant mentions self.%s" % (cname, a)})
+                else:
+                    private.add("_%s%s" % (cname, a))
+        for mod, tree in src.modules.items():
+            for n in ast.walk(tree):
+                if isinstance(n, ast.Attribute) and isinstance(n.ctx, (ast.Store, ast.Del)) and n.attr in private:
+                    problems.append({"rule": "class-invariant-attributes-are-private", "detail": "%s: %s assigned by its mangled name" % (mod, n.attr)})
+                if isinstance(n, ast.Call) and ast.unparse(n.func) in ("setattr", "object.__setattr__", "delattr") and any(
+                        isinstance(a, ast.Constant) and a.value in private for a in n.args):
+                    problems.append({"rule": "class-invariant-attributes-are-private", "detail": "%s: %s set through setattr" % (mod, ast.unparse(n))})
     # doc_of(v) is a function of the value alone (pyvc/builtins_spec.py "document codecs"): a contract that speaks about
     # document values must leave every pre-existing object as it was, i.e. modify nothing but fresh objects
     for q, c in reg.contracts.items():
